@@ -109,6 +109,10 @@ MonFault(la, st, known, honest) ==
              (Fired \cap {"GetLatest", "query", "next", "WriteOps", "begin"}) # {} => la.v # "Accept" /\ Ev.unchanged)
     /\ Check("C07", "FailureHasNoEffect", (Fired \ {"Close", "rollback"}) # {} /\ la.v # "Accept" => Ev.unchanged /\ la.ret \in {"nil", "prev"})
     /\ Check("C07", "NeverRegresses", AppendOnlyStep(stored, stored'))
+    \* C05: the outcome is the one the atomic witness gives on the state that WAS current, or a storage error without effect
+    \* (a store that reported trouble on the way is no licence to decide on some other state: "nothing stored", a stale copy)
+    /\ Check("C05", "DecidedOnTheCurrentStateOrStorageErrorWithoutEffect",
+             ConformsStep(stored, stored', la) \/ (Fired # {} /\ la.v # "Accept" /\ Ev.unchanged))
     /\ Check("C07", "NoLeak", Ev.opentx = 0 /\ Ev.inuse = 0 /\ la.v # "Hang")
     \* once the errors stop the witness carries on from the last committed state
     /\ Check("C07", "CarriesOn", Fired = {} /\ honest /\ ~(st # None /\ st.n = 0 /\ la.req.n > 0) => la.v = "Accept")
